@@ -854,8 +854,6 @@ func c16InterpPar(t *testing.T, c c16Case) (v kit.Verdict) {
 			res.fail = fmt.Sprintf("leak: 10 s (real time, interval %v) after the final Wait %d goroutines are alive, %d before the case:\n%s",
 				c.interval(), runtime.NumGoroutine(), c16BaseGoroutines, buf)
 		}
-	} else {
-		time.Sleep(c.interval())
 	}
 	s.mu.Lock()
 	s.dead = true
@@ -927,19 +925,17 @@ func c16GenPar(rt *rapid.T) c16Case {
 	c.IvMs = rapid.SampledFrom([]int{1, 1, 2}).Draw(rt, "iv")
 	ng := rapid.IntRange(2, 6).Draw(rt, "ng")
 	n := rapid.IntRange(2, 60).Draw(rt, "nev")
-	idles := 0
+	idleAt := -1 // at most one idle phase of 12 intervals for the whole case, in one case of six
+	if n > 2 && rapid.IntRange(0, 5).Draw(rt, "idle") == 0 {
+		idleAt = rapid.IntRange(1, n-1).Draw(rt, "idleAt")
+	}
 	for i := 0; i < n; i++ {
 		e := c16Ev{G: rapid.IntRange(0, ng-1).Draw(rt, "g")}
 		e.K = rapid.SampledFrom([]string{"add", "add", "add", "add", "add", "add", "add", "add", "flush", "wait"}).Draw(rt, "k")
-		switch g := rapid.IntRange(0, 39).Draw(rt, "gapclass"); {
-		case g < 30:
-		case g < 39:
+		if i == idleAt {
+			e.Gap = c16IdleGap
+		} else if rapid.IntRange(0, 3).Draw(rt, "gapclass") == 0 {
 			e.Gap = rapid.IntRange(1, 3).Draw(rt, "gap") // Gosched calls
-		default:
-			if idles < 1 && i > 0 {
-				e.Gap = c16IdleGap // idle phase of 12 intervals for the whole case
-				idles++
-			}
 		}
 		if e.K == "add" && c.Kind == "chunk" {
 			e.S = rapid.IntRange(0, 50).Draw(rt, "size")
@@ -1076,6 +1072,6 @@ func TestVerif_C16_parallel(t *testing.T) {
 		defer runtime.GOMAXPROCS(runtime.GOMAXPROCS(4))
 	}
 	c16BaseGoroutines = runtime.NumGoroutine()
-	kit.Run(t, "C16", "exec-parallel", kit.Opts{Quick: 1500, Thorough: 40000}, c16GenPar,
+	kit.Run(t, "C16", "exec-parallel", kit.Opts{Quick: 1200, Thorough: 48000}, c16GenPar,
 		func(c c16Case) kit.Verdict { return c16InterpPar(t, c) })
 }
